@@ -121,6 +121,18 @@ func atomsHave(atoms map[string]bool, pat string) bool {
 func (t *Term) Has(pats ...string) bool {
 	at := t.Atoms()
 	for _, p := range pats {
+		if strings.Contains(p, "|") && !strings.HasPrefix(p, "^") && !strings.HasPrefix(p, "!") { // alternatives
+			ok := false
+			for _, alt := range strings.Split(p, "|") {
+				if t.Has(alt) {
+					ok = true
+				}
+			}
+			if !ok {
+				return false
+			}
+			continue
+		}
 		if strings.HasPrefix(p, "!") { // negative pattern: must not be present
 			if t.Has(p[1:]) {
 				return false
